@@ -159,7 +159,7 @@ func c06Filed() (string, string) {
 			sn := ents[i].VerifSnapshot()
 			if sn.Status == int(cache.StatusHit) && sn.Resp != nil {
 				xs := strings.SplitN(sn.Resp.Header.Get("X-Self"), "|", 4)
-				if len(xs) == 4 && xs[1]+" "+xs[2]+" "+xs[3] != k {
+				if len(xs) == 4 && !strings.Contains(k, xs[1]+" "+xs[2]+" "+xs[3]) { // the store key may carry a namespace, but must name the record's own request key
 					return "entry-filed-under-foreign-key", fmt.Sprintf("the entry filed under %q holds the response produced for %q", k, xs[1]+" "+xs[2]+" "+xs[3])
 				}
 			}
@@ -296,11 +296,115 @@ func init() {
 			}
 			st.NOutcomes = int(st.Execs)
 		}
+		if c.Want("forced-hash-collisions") && c.Shard == 0 {
+			st := c.Stat("forced-hash-collisions", "enumeration")
+			st.Bounds = "birthday search over 300000 keys for pairs colliding on the low 16 / 24 / 32 bits of the real hash (hence in the same shard), sequence A B A B A B with a large limit"
+			e := getEnv(cfg, "basic")
+			for _, bits := range []uint{16, 24, 32} {
+				seen := map[uint64]string{}
+				found := 0
+				for i := 0; i < 300000 && found < 3; i++ {
+					u := fmt.Sprintf("/h/%d", i)
+					h := cache.MemHash([]byte("GET a.com "+u)) & (1<<bits - 1)
+					if o, ok := seen[h]; ok {
+						found++
+						freshCaches(cfg)
+						e.Respond = func(oc *env.OriginCall) env.OriginResp { return env.Cacheable(oc, 100, "p") }
+						e.Events()
+						for n, uri := range []string{o, u, o, u, o, u} {
+							e.Do(env.Req{URI: uri, Rid: fmt.Sprintf("r%d", n)})
+						}
+						an := analyze(e.Events())
+						st.Execs++
+						v := an.selfCheck()
+						if v == nil {
+							v = an.labelTruth()
+						}
+						if v == nil {
+							for _, rid := range []string{"r2", "r3", "r4", "r5"} {
+								if an.Reqs[rid].Res.XStatus != "hit" {
+									v = &vsched.Violation{Sig: "key-not-isolated-miss", Msg: fmt.Sprintf("%s labelled %s for colliding keys %s %s", rid, an.Reqs[rid].Res.XStatus, o, u)}
+								}
+							}
+						}
+						if v != nil {
+							c.Violation("forced-hash-collisions", v.Sig, fmt.Sprintf("keys %s and %s collide on the low %d hash bits: %s", o, u, bits, v.Msg), nil, map[string]interface{}{"a": o, "b": u, "bits": bits}, nil)
+						}
+						continue
+					}
+					seen[h] = u
+				}
+				if found == 0 && bits < 32 {
+					c.Violation("forced-hash-collisions", "harness-no-collision-found", fmt.Sprint(bits), nil, nil, nil)
+				}
+			}
+			st.States, st.Transitions, st.Nontrivial = st.Execs*6, st.Execs*6, st.Execs
+			st.NOutcomes = int(st.Execs)
+		}
 		pre := 2
 		if c.Thorough() {
 			pre = 3
 		}
+		c.RunSched(c06ConcStore(c, "conc3-store-restart", vsched.Bounds{Preempt: pre, Tick: 0, Data: -1, Total: -1}))
 		c.RunSched(c06Conc(c, "conc3-limit2", 2, [][]c06Key{{U[0], U[2]}, {U[2], U[3]}, {U[24], U[0]}}, vsched.Bounds{Preempt: pre, Tick: 0, Data: -1, Total: -1}))
 		c.RunSched(c06Conc(c, "conc3-limit1", 1, [][]c06Key{{U[0]}, {U[8]}, {U[0], U[5]}}, vsched.Bounds{Preempt: pre, Tick: 0, Data: -1, Total: -1}))
 	})
+}
+
+// concurrent creation of same-length keys on a store-backed cache, then a restart on the same disk
+func c06ConcStore(c *Ctx, name string, b vsched.Bounds) Sched {
+	cfg := env.BasicConfig(config.CacheConfig{Store: "fault://c06c"})
+	return Sched{
+		Name:   name,
+		Bounds: b,
+		Setup: func() ([]func(), func(*vsched.Exec) *vsched.Violation, func() string) {
+			st := env.NewFaultStore()
+			st.Register("fault://c06c")
+			e := getEnv(cfg, "c06c")
+			freshCaches(cfg)
+			vtime.Set(vtime.Base)
+			vsched.ClockStart = vtime.Base
+			e.Respond = func(oc *env.OriginCall) env.OriginResp { return env.Cacheable(oc, 600, "p") }
+			e.Events()
+			uris := []string{"/x?a=1", "/x?a=2", "/x?a=3"}
+			var bodies []func()
+			for i, u := range uris {
+				i, u := i, u
+				bodies = append(bodies, func() { e.Do(env.Req{URI: u, Rid: fmt.Sprintf("t%d", i)}) })
+			}
+			obs := ""
+			check := func(x *vsched.Exec) *vsched.Violation {
+				an := analyze(e.Events())
+				if x.Deadlock || x.Livelock || len(x.Panics) > 0 {
+					return nil
+				}
+				if v := an.selfCheck(); v != nil {
+					return v
+				}
+				// the store must hold each record under its own key
+				for k, rec := range st.Disk {
+					got, err := cache.VerifDecode(rec.Data)
+					if err == nil && got.Resp != nil {
+						xs := strings.SplitN(got.Resp.Header.Get("X-Self"), "|", 4)
+						if len(xs) == 4 && !strings.Contains(k, xs[1]+" "+xs[2]+" "+xs[3]) { // the store key may carry a namespace, but must name the record's own request key
+							return &vsched.Violation{Sig: "record-stored-under-foreign-key", Msg: fmt.Sprintf("the store holds under %q the response produced for %q", k, xs[1]+" "+xs[2]+" "+xs[3])}
+						}
+					}
+				}
+				freshCaches(cfg)
+				obs = ""
+				for _, u := range uris {
+					r := e.Do(env.Req{URI: u, Rid: "after" + u})
+					an2 := analyze(e.Events())
+					if v := an2.selfCheck(); v != nil {
+						v.Sig += "-after-restart"
+						return v
+					}
+					obs += r.XStatus + ","
+				}
+				return nil
+			}
+			return bodies, check, func() string { return obs }
+		},
+	}
 }
